@@ -201,6 +201,7 @@ def run(chk, repo, tier):
            det_f or 'converted through metres and back', fto.loc())
 
     unit_label_order_rule(chk, repo, 'C14-c')
+    rescaled_copy_rule(chk, repo, 'C14-c')
     fto_ = repo.func('radiometry.Spectrum.to')
     early = []
     for loop in [n for n in ast.walk(fto_.node) if isinstance(n, ast.For)]:
@@ -294,6 +295,52 @@ def run(chk, repo, tier):
                     chk.ob('C14-g', 'B5-default', key, f'call of {s.callee.key} at line {s.node.lineno} passes {unit}', explicit,
                            '' if explicit else f'relies on the default {unit}={dflt[unit].value!r} of {s.callee.key} although '
                                                f'{key} works in the `{unit}` it was given', s.loc())
+
+
+def rescaled_copy_rule(chk, repo, clause):
+    """Wherever radiometry builds a Spectrum from another one's samples with the wavelengths multiplied by a unit factor,
+    the values of a per-wavelength density are divided by that factor (what Spectrum.to does) - unless the new spectrum
+    is declared unitless."""
+    cls = repo.cls('radiometry.Spectrum')
+    n_fn = n_sites = 0
+    bad, locs = [], []
+    for f in repo.all_functions():
+        if f.module.name != 'radiometry' or f.key == 'radiometry.Spectrum.to':
+            continue
+        src = ast.get_source_segment(f.module.source, f.node) if hasattr(f.module, 'source') else None
+        if src is not None and 'to(' not in src:
+            continue
+        types = {('sym', nm): cls for nm, _, _ in f.params() if nm in ('s1', 's2', 'other', 'spectrum', 'spec')}
+        try:
+            _, paths, _ = analyse(repo, f, types=types)
+        except AnalysisError:
+            continue
+        n_fn += 1
+        for p in paths:
+            for e in p.events:
+                if e.kind != 'call' or e.data.get('new') != 'radiometry.Spectrum' or not e.bound:
+                    continue
+                W, V, vu = e.bound.get('wave'), e.bound.get('value'), e.bound.get('valueunit')
+                if not isinstance(W, Poly) or not isinstance(V, Poly):
+                    continue
+                for wa in [a for a in W.atoms(deep=False) if a[0] == 'attr' and a[2] in ('wave', '_wave')]:
+                    k = W / Poly.atom(wa)
+                    if k is None or wa in nf.value_atoms(k) or k.const_value() is not None:
+                        continue
+                    if not any(is_app(x, 'm:to') or (x[0] == 'app' and str(x[1]).startswith('call:') and str(x[1]).endswith('.to'))
+                               for x in nf.value_atoms(k)):
+                        continue
+                    n_sites += 1
+                    src_vals = [Poly.atom(('attr', wa[1], nm)) for nm in ('value', '_value')]
+                    if vu == NONE or any(V * k == sv for sv in src_vals):
+                        continue
+                    if any(sv.single_atom() in nf.value_atoms(V) for sv in src_vals):
+                        locs.append(f.loc(e.node))
+                        bad.append(f'{f.key} @ {e.loc()}: wavelengths * ({fmt(k)[:60]}) but value = {fmt(V)[:60]} '
+                                   f'(a density must be divided by the same factor)')
+    chk.ob(clause, 'N-reciprocal', 'radiometry', 'a spectrum re-expressed in another wavelength unit rescales its density values too',
+           not bad, '; '.join(sorted(set(bad))[:2]) or f'{n_fn} functions scanned, {n_sites} rescaled constructions, all paired',
+           locs[0] if locs else repo.func('radiometry._interp_common').loc())
 
 
 def unit_label_order_rule(chk, repo, clause):
